@@ -9,8 +9,8 @@ OUTS = {'tuple': out.PartitionAndSumsTuple, 'partition': out.Partition, 'sums': 
 
 class Oversize:
     """packing with at least one item larger than the bin size, at any position and with any multiplicity"""
-    def __init__(self, alg, n, pres='nv', ot='tuple', B=None):
-        self.alg = alg; self.n = n; self.pres = pres; self.ot = ot; self.B = B
+    def __init__(self, alg, n, pres='nv', ot='tuple', B=None, prime=False):
+        self.alg = alg; self.n = n; self.pres = pres; self.ot = ot; self.B = B; self.prime = prime
 
     def setup(self, c):
         idx = item_vars(c, self.n, 0, 'any')
@@ -25,6 +25,17 @@ class Oversize:
     def fn(self, c, idx, bi):
         items, valueof = present(self.pres, numbers(c, idx))
         B = self.B if self.B is not None else c.num(bi)
+        if self.prime:
+            # history: a satisfiable request with the same items and a bin size that is large enough comes first
+            vals = numbers(c, idx)
+            big = (sum(vals, 0) + B) if self.alg != 'bc' else B * 3      # bin completion divides by the bin size: a concrete one
+            try:
+                prtpy.pack(pack_alg(self.alg), big, items, valueof=valueof, outputtype=OUTS[self.ot])
+            except ValueError:
+                if self.alg != 'bc':
+                    c.report('exception', 'the satisfiable priming request was refused'); return
+            except Exception as e:
+                c.report('exception', 'the satisfiable priming request raised %s: %s' % (type(e).__name__, e)); return
         try:
             r = prtpy.pack(pack_alg(self.alg), B, items, valueof=valueof, outputtype=OUTS[self.ot])
         except ValueError:
@@ -123,6 +134,7 @@ def jobs(tier):
             J.append(job('oversize', alg=alg, n=3, pres=pres))
         for ot in ('partition', 'sums', 'bincount', 'largest'):
             J.append(job('oversize', alg=alg, n=3, ot=ot))
+        J.append(job('oversize', alg=alg, n=2, prime=True)); J.append(job('oversize', alg=alg, n=3, prime=True, pres='list'))
     for B in (7, 10):
         for n in (1, 2, 3, 4):
             J.append(job('oversize', alg='bc', n=n, B=B, pres='list'))
@@ -130,6 +142,7 @@ def jobs(tier):
             J.append(job('oversize', alg='bc', n=3, B=B, pres=pres))
         for ot in ('partition', 'sums', 'bincount'):
             J.append(job('oversize', alg='bc', n=3, B=B, pres='list', ot=ot))
+        J.append(job('oversize', alg='bc', n=3, B=B, pres='list', prime=True))
     for what in ('numbins', 'negative', 'time_limit', 'partition_difference', 'pd_noninteger'):
         J.append(job('cbldm', what=what)); J.append(job('cbldm', what=what, pres='list', n=2))
     J.append(job('cbldm', what='negative', n=4))
